@@ -24,6 +24,8 @@ def check(ctx):
     repo = ctx.repo
     from . import generic as _gen
     _gen.language_traps(ctx, _gen.anchor_functions(repo, "C16"), "the property holds for every input, on every call")
+    _gen.names_as_given(ctx, repo.fn("dataiter.list_of_dicts.ListOfDicts.group_by"), repo.fn("dataiter.list_of_dicts.ListOfDicts.group_by").vararg,
+                        "aggregate returns one item per distinct key tuple, ordered by those keys in the order given")
     # aggregate orders its groups with ListOfDicts.sort: the sort's own rule belongs to this property as well
     from .C15 import check_sort as _check_sort
     _check_sort(ctx, repo)
